@@ -14,7 +14,10 @@ DIR_POOL = ["d", "sub", "dir", "d.dir", "é dir", "deep", "a", "b", "x y", "q\\r
 def rand_name(rng, pool=NAME_POOL):
     if rng.random() < 0.85:
         return rng.choice(pool)
-    return "".join(rng.choice("abcXYZ019 _-.é") for _ in range(rng.randrange(1, 9)))
+    while True:
+        n = "".join(rng.choice("abcXYZ019 _-.é") for _ in range(rng.randrange(1, 9)))
+        if n not in (".", ".."):
+            return n
 
 
 def rand_content(rng, pool=None):
